@@ -6,6 +6,8 @@
 From Coq Require Import List Arith NArith ZArith Bool.
 From NV Require Import Base.LE Trunc.Stream Trunc.StreamProofs Index.Layout Index.LayoutProofs Trunc.BaiProofs.
 From NV Require Import Bgzf.Crc32 Trunc.Cram Trunc.CramProofs Trunc.GziProofs Trunc.TextProofs.
+From NV Require Import Index.CsiLayout Index.CsiLayoutProofs Index.TextIndex Index.TextIndexProofs.
+From NV Require Import Trunc.CsiProofs Trunc.TextIdxProofs Trunc.IndexCut Trunc.IndexCutProofs.
 Import ListNotations.
 Open Scope N_scope.
 
@@ -325,6 +327,121 @@ Theorem c13_text_over_bgzf_truncation_partial :
 Proof. exact text_over_bgzf_truncation. Qed.
 Print Assumptions c13_text_over_bgzf_truncation_partial.
 
+(* ---- CSI (model read_csi / w_csi_bytes of NV.Index.CsiLayout = the uncompressed payload):
+   an error for every cut below the optional trailing n_no_coor, the index without the count
+   inside that field, the index on the whole payload.  The aux block and the sequence names are
+   read through io::Take (a cut right behind a name's NUL parses as a shorter header), but the
+   n_ref field that follows then fails on the exhausted input ---- *)
+Theorem c13_csi_truncation : forall i k, csi_ok i ->
+  let file := w_csi_bytes i in
+  let base := length (w_csi_bytes (csi_no_count i)) in
+  ((k < base)%nat -> read_csi (firstn k file) = None) /\
+  ((base <= k < length file)%nat -> read_csi (firstn k file) = Some (reread_csi (csi_no_count i))) /\
+  ((length file <= k)%nat -> read_csi (firstn k file) = Some (reread_csi i)).
+Proof. exact csi_truncation. Qed.
+Print Assumptions c13_csi_truncation.
+
+(* ---- tabix: the same, PROVIDED a reference sequence follows the header or the header has no
+   names ---- *)
+Theorem c13_tabix_truncation : forall i hd k, tbi_ok i -> ti_header i = Some hd ->
+  let file := w_tbi_bytes i in
+  let base := length (w_tbi_bytes (tbi_no_count i)) in
+  ((k < base)%nat -> ti_refs i <> [] \/ h_names hd = [] -> read_tbi (firstn k file) = None) /\
+  ((base <= k < length file)%nat -> read_tbi (firstn k file) = Some (reread_tbi (tbi_no_count i))) /\
+  ((length file <= k)%nat -> read_tbi (firstn k file) = Some (reread_tbi i)).
+Proof. exact tbi_truncation. Qed.
+Print Assumptions c13_tabix_truncation.
+
+(* the exceptional class, exactly: a tabix index with names but NO reference sequence.  A cut
+   inside the header is accepted precisely when the header parser accepts the part present (a
+   cut right behind the NUL of a name, or right behind l_nm), giving that shortened header *)
+Theorem c13_tabix_truncation_no_refs : forall i hd k, tbi_ok i -> ti_header i = Some hd -> ti_refs i = [] ->
+  (k < 8 + length (w_header hd))%nat ->
+  read_tbi (firstn k (w_tbi_bytes i)) =
+    if (k <? 8)%nat then None
+    else match p_header (firstn (k - 8) (w_header hd)) with
+         | None => None
+         | Some (h', _) => Some (mktbi (Some h') [] None)
+         end.
+Proof. exact tbi_truncation_no_refs. Qed.
+Print Assumptions c13_tabix_truncation_no_refs.
+
+(* ---- CSI / tabix files = BGZF frames around the payload: composition with c13_bgzf_truncation.
+   Whatever the cut of the compressed file, the layered reader is the payload parser on the data
+   of the frames wholly inside the cut ---- *)
+Theorem c13_index_over_bgzf_truncation :
+  forall (inflate : list N -> option (list N)) (I : Type) (rd : list N -> option I) fs payload k,
+    Forall (frame_good inflate) fs ->
+    concat (map (frame_data inflate) fs) = payload ->
+    exists j : nat,
+      (j <= length fs)%nat /\
+      (length (bgzf_file (firstn j fs)) <= k)%nat /\
+      (j < length fs -> k < length (bgzf_file (firstn (S j) fs)))%nat /\
+      let n := length (concat (map (frame_data inflate) (firstn j fs))) in
+      (n <= length payload)%nat /\ (j = length fs -> n = length payload) /\
+      idx_over_bgzf inflate rd (firstn k (bgzf_file fs)) = Some (rd (firstn n payload)).
+Proof. exact idx_over_bgzf_truncation. Qed.
+Print Assumptions c13_index_over_bgzf_truncation.
+
+Theorem c13_csi_over_bgzf_truncation :
+  forall (inflate : list N -> option (list N)) i fs k, csi_ok i ->
+    Forall (frame_good inflate) fs ->
+    concat (map (frame_data inflate) fs) = w_csi_bytes i ->
+    exists n : nat,
+      (n <= length (w_csi_bytes i))%nat /\
+      idx_over_bgzf inflate read_csi (firstn k (bgzf_file fs)) =
+        Some (if (n <? length (w_csi_bytes (csi_no_count i)))%nat then None
+              else if (n <? length (w_csi_bytes i))%nat then Some (reread_csi (csi_no_count i))
+              else Some (reread_csi i)).
+Proof. exact csi_over_bgzf_truncation. Qed.
+Print Assumptions c13_csi_over_bgzf_truncation.
+
+Theorem c13_tabix_over_bgzf_truncation :
+  forall (inflate : list N -> option (list N)) i hd fs k, tbi_ok i -> ti_header i = Some hd ->
+    ti_refs i <> [] \/ h_names hd = [] ->
+    Forall (frame_good inflate) fs ->
+    concat (map (frame_data inflate) fs) = w_tbi_bytes i ->
+    exists n : nat,
+      (n <= length (w_tbi_bytes i))%nat /\
+      idx_over_bgzf inflate read_tbi (firstn k (bgzf_file fs)) =
+        Some (if (n <? length (w_tbi_bytes (tbi_no_count i)))%nat then None
+              else if (n <? length (w_tbi_bytes i))%nat then Some (reread_tbi (tbi_no_count i))
+              else Some (reread_tbi i)).
+Proof. exact tbi_over_bgzf_truncation. Qed.
+Print Assumptions c13_tabix_over_bgzf_truncation.
+
+(* ---- text indexes fai and crai (crai: the text inside the gzip member).  Exact result of every
+   cut ([text_index_cut]): complete lines unchanged; at a line boundary exactly them; inside a
+   line an error up to and including the last TAB, and behind it the record with its LAST field
+   replaced by the value of the digits present (class text-truncated-final-line-accepted-fai) ---- *)
+Theorem c13_fai_truncation : forall l k, Forall fai_ok l ->
+  read_fai (firstn k (w_fai l)) = text_index_cut fai_partial fai_line l k.
+Proof. exact fai_truncation. Qed.
+Print Assumptions c13_fai_truncation.
+
+Theorem c13_crai_truncation : forall l k, Forall crai_ok l ->
+  read_crai (firstn k (w_crai l)) = text_index_cut crai_partial crai_line l k.
+Proof. exact crai_truncation. Qed.
+Print Assumptions c13_crai_truncation.
+
+Theorem c13_fai_truncation_prefix : forall l k res, Forall fai_ok l ->
+  read_fai (firstn k (w_fai l)) = Some res ->
+  exists j, (j <= length l)%nat /\
+    (res = firstn j l \/
+     exists r lw, nth_error l j = Some r /\
+       res = firstn j l ++ [mkfai (f_name r) (f_len r) (f_pos r) (f_lb r) lw]).
+Proof. exact fai_truncation_prefix. Qed.
+Print Assumptions c13_fai_truncation_prefix.
+
+Theorem c13_crai_truncation_prefix : forall l k res, Forall crai_ok l ->
+  read_crai (firstn k (w_crai l)) = Some res ->
+  exists j, (j <= length l)%nat /\
+    (res = firstn j l \/
+     exists r sl, nth_error l j = Some r /\
+       res = firstn j l ++ [mkcrai (c_rid r) (c_start r) (c_span r) (c_off r) (c_land r) sl]).
+Proof. exact crai_truncation_prefix. Qed.
+Print Assumptions c13_crai_truncation_prefix.
+
 (* ---- non-vacuity ---- *)
 (* a 36-byte BAM record (32 fixed bytes, name "r\0", no cigar, 1 base, 1 quality) is [bam_good] *)
 Definition ex_rec : list N :=
@@ -411,3 +528,38 @@ Example c13_ex_text :
   read_stream (text_read_record ok (Err UnexpectedEof)) (firstn 4 s) = ([[65;66]], Err UnexpectedEof) /\
   read_stream (text_read_record ok Eof) (firstn 6 s) = ([[65;66];[67;68]], Eof).
 Proof. vm_compute. repeat split. Qed.
+
+(* CSI: one empty reference and a count; tabix without references but with names "a", "b": the
+   cut behind the NUL of "a" is a valid index with one name *)
+Example c13_ex_csi :
+  let i := mkcsi 14 5 None [mkcref [] [] None] (Some 7) in
+  length (w_csi_bytes i) = 32%nat /\
+  read_csi (firstn 23 (w_csi_bytes i)) = None /\
+  read_csi (firstn 24 (w_csi_bytes i)) = Some (mkcsi 14 5 None [mkcref [] [] None] None) /\
+  read_csi (firstn 31 (w_csi_bytes i)) = Some (mkcsi 14 5 None [mkcref [] [] None] None) /\
+  read_csi (firstn 32 (w_csi_bytes i)) = Some i.
+Proof. exact csi_trunc_example. Qed.
+
+Example c13_ex_tabix_no_refs :
+  length (w_tbi_bytes ex_tbi_norefs) = 40%nat /\
+  read_tbi (w_tbi_bytes ex_tbi_norefs) = Some ex_tbi_norefs /\
+  read_tbi (firstn 39 (w_tbi_bytes ex_tbi_norefs)) = None /\
+  read_tbi (firstn 38 (w_tbi_bytes ex_tbi_norefs)) =
+    Some (mktbi (Some (mkhdr FVcf 0 1 None 35 0 [[97]])) [] None) /\
+  read_tbi (firstn 37 (w_tbi_bytes ex_tbi_norefs)) = None /\
+  read_tbi (firstn 36 (w_tbi_bytes ex_tbi_norefs)) =
+    Some (mktbi (Some (mkhdr FVcf 0 1 None 35 0 [])) [] None).
+Proof. exact tbi_no_refs_example. Qed.
+
+Example c13_ex_fai :
+  let r1 := mkfai [115;49] 100 4 60 61 in
+  let r2 := mkfai [115;50] 250 110 70 71 in
+  let f := w_fai [r1; r2] in
+  length f = 32%nat /\
+  read_fai (firstn 15 f) = Some [r1] /\
+  read_fai (firstn 16 f) = None /\
+  read_fai (firstn 29 f) = None /\
+  read_fai (firstn 30 f) = Some [r1; mkfai [115;50] 250 110 70 7] /\
+  read_fai (firstn 31 f) = Some [r1; r2] /\
+  read_fai (firstn 32 f) = Some [r1; r2].
+Proof. exact fai_trunc_example. Qed.
